@@ -1,64 +1,64 @@
 NOT_YET = {}
 chk("C01",
-    "Exhaustive enumeration of all thread schedules (within a stated preemption bound) of 2-3 concurrent Get callers plus background builds on the real Failover/FailoverOf code, for every cell of the configuration x entry-state x builder-script table; a monitor inside the builder asserts at most one build per key in flight in every explored state.",
+    "Exhaustive enumeration of all thread schedules (within a stated preemption bound) of 2-3 concurrent Get callers plus background builds on the real Failover/FailoverOf code, for every cell of the configuration x entry-state x builder-script table; client programs include a forced-refresh (SkipRead) Get, a reused key buffer and a caller that cancels its context while its build is running; a monitor inside the builder asserts at most one build per key in flight in every explored state.",
     "Trusted: Go toolchain, the shim packages (delegate to std primitives), vinst source rewriting, the harness builder monitor. Code between two synchronisation operations is executed atomically; >3 threads and >bound preemptions are not explored.",
     "stateless model checking of the implementation (controlled scheduler, preemption-bounded DFS over schedules)", "DESIGN.md §C01")
 
 chk("C07",
-    "Explicit-state breadth-first search over all operation sequences up to the depth bound on the real backends (ShardedMap, SyncMap, ShardedMapOf) with a reference map-with-expiry stepped in lock-step; every return value and, after every transition, Len and a full Walk are compared; states are deduplicated on a canonical (key,value,relative expiry) form.",
+    "Explicit-state breadth-first search over all operation sequences up to the depth bound on the real backends (ShardedMap, SyncMap, ShardedMapOf) with a reference map-with-expiry stepped in lock-step; every return value and, after every transition, Len and a full Walk are compared; states are deduplicated on a canonical (key,value,relative expiry) form. Keys travel in one caller-owned buffer that is overwritten after every call; cells with one key in every shard cover the batch operations; every path runs as one controlled thread under the scheduler, so a call that never returns (leaked lock) is a detected deadlock.",
     "Trusted: reference model ref.ExpMap, virtual clock shim, vinst rewriting. Sequences longer than the depth bound and key/value alphabets beyond the listed ones are not explored.",
     "explicit-state model checking (BFS over operation histories of the implementation vs reference model)", "DESIGN.md §C07")
 chk("C10",
-    "Complete enumeration of the TTL configuration grid (magnitude x sign x config/context level x jitter x rand answer incl. both extremes x backend) under a virtual clock; expiry bounds are checked in exact rational arithmetic and reads are probed 1ns before/after the expiry instant.",
+    "Complete enumeration of the TTL configuration grid (magnitude 1ns..100y (150y thorough) x sign x config/context level x composition of the context TTL with other context helpers x jitter x rand answer incl. both extremes x backend) under a virtual clock; expiry bounds are checked in exact rational arithmetic and reads are probed 1ns before/after the expiry instant.",
     "Trusted: virtual clock and rand seams; monotonicity of Trait.TTL in the rand answer (checked on interior grid points) extends the two extremes to every rand value. TTL magnitudes outside the grid are not explored.",
     "exhaustive enumeration of a finite configuration/environment-answer table on the implementation", "DESIGN.md §C10")
 chk("C11",
-    "Explicit-state BFS over sequences of writes (default/per-call TTL), clock advances, ExpireAll and cleanup cycles (the janitor's own function through a verif-tagged accessor) for finite and Unlimited TimeToLive x DeleteExpiredAfter x 3 backends, compared state-by-state with the reference model's removal rule.",
+    "Explicit-state BFS over sequences of writes (default/per-call TTL), clock advances, ExpireAll and cleanup cycles (the janitor's own function through a verif-tagged accessor) for finite and Unlimited TimeToLive x DeleteExpiredAfter x {no limit, never exceeded memory limit, count limit exceeded only by entries the cycle deletes} x 3 backends, compared state-by-state with the reference model's removal rule; plus all schedules of a cleanup cycle next to writes, and the constructor-started janitor goroutine itself.",
     "Trusted: ref.ExpMap.Cleanup as the statement's rule; the janitor goroutine's timing is replaced by explicit cleanup operations at every position.",
     "explicit-state model checking (BFS over operation histories of the implementation vs reference model)", "DESIGN.md §C11")
 chk("C12",
-    "Complete enumeration of limit x fraction x strategy x EvictionNeeded x backend cells, each with every cache size around and far above the limit and every read history up to the bound (with and without rank ties); two real cleanup cycles per history; amount, order and metric oracles evaluated on every case.",
-    "Trusted: harness rank model (expiry / last served instant / serve count). Heap and Sys limits are only reachable through EvictionNeeded (runtime.ReadMemStats is not seamed).",
+    "Complete enumeration of limit x fraction x strategy x EvictionNeeded x backend cells, each with every cache size around and far above the limit and every access history up to the bound (reads, ExpireAll, re-writes; with and without rank ties; 1s and 1us apart); two real cleanup cycles per history; amount, order and metric oracles evaluated on every case.",
+    "Trusted: harness rank model (expiry / last served instant / serve count). Heap and Sys limits are configured at a value that can never be exceeded (they must not cause eviction); exceeding them is only reachable through EvictionNeeded (runtime.ReadMemStats is not seamed).",
     "exhaustive enumeration of a finite configuration x history table on the implementation", "DESIGN.md §C12")
 chk("C13",
-    "All ordered entry sequences up to the bound over the key-length x value-shape x expiry alphabet, with the dump order forced (shard placement for ShardedMap, every Range permutation for SyncMap through the sync.Map shim), for every backend pairing, 3-hop relays and a 300-entry cache; target Walk/Read compared with the source.",
+    "All ordered entry sequences up to the bound over the key-length x value-shape x expiry alphabet, with the dump order forced (shard placement for ShardedMap, every Range permutation for SyncMap through the sync.Map shim), for every backend pairing, 3-hop relays and a 300-entry cache; entries are written through one scratch key buffer and the target is compared with the entries WRITTEN; value types are registered through a variadic GobRegister call that repeats a known type.",
     "Trusted: encoding/gob round-trips the chosen value alphabet (verified by the SM->SM cells themselves). Entry sequences longer than the bound are represented only by the 300-entry case.",
     "exhaustive enumeration of bounded input sequences in every iteration order on the implementation", "DESIGN.md §C13")
 
 chk("C02",
-    "Exhaustive enumeration of schedules (preemption-bounded) of concurrent Gets on the real Failover/FailoverOf, crossed with builder outcome scripts and with a backend Read/Write fault injected at every call position (deviation-bounded); every returned (value, error) pair is traced to a finished builder invocation for the same key, the preloaded content or the injected fault.",
+    "Exhaustive enumeration of schedules (preemption-bounded) of concurrent Gets on the real Failover/FailoverOf, crossed with builder outcome scripts and with a backend Read/Write fault injected at every call position (deviation-bounded); plus two constructed hash-colliding keys and a caller reusing one key buffer; every returned (value, error) pair is traced to a finished builder invocation for the same key, the preloaded content or the injected fault.",
     "Trusted: token discipline of the harness (values carry key, origin, invocation index). Same scheduling granularity and bounds as C01; at most 1 (quick) / 2 (thorough) injected faults per execution.",
     "stateless model checking of the implementation with fault enumeration (preemption- and deviation-bounded DFS)", "DESIGN.md §C02")
 chk("C03",
-    "Complete enumeration of the finite decision table (1536 cells incl. SyncRead and the three front-ends), each cell executed on the real code under the scheduler with all schedules of caller continuation and background build (unbounded, happens-before cached), compared with ref.FailoverTable written from the README.",
+    "Complete enumeration of the finite decision table (4 entry states x failure cache x SyncUpdate x SyncRead x FailHard x MaxStaleness x FailedUpdateTTL x builder outcome) on all six API x backend pairings (Failover / FailoverOf over ShardedMap, SyncMap, ShardedMapOf: 3072 cells), each cell executed on the real code under the scheduler with all schedules of caller continuation and background build (unbounded, happens-before cached), compared with ref.FailoverTable written from the README; plus explicit-state search over Get / clock / ExpireAll sequences against ref.FModel so that cells are entered from non-initial states.",
     "Trusted: ref.FailoverTable as a faithful transcription of README bullets 2-7 (two ambiguous cells accept either documented outcome).",
     "exhaustive enumeration of a finite configuration table + stateless model checking of each cell", "DESIGN.md §C03")
 
 chk("C04",
-    "Exhaustive enumeration of schedules (preemption-bounded) of concurrent Gets plus caller behaviour after return (overwrite or reuse of the key buffer at every scheduling position relative to the background build, context cancellation) and one injected backend fault at every call position; termination through the scheduler's deadlock detection, lock accounting at quiescence, and a black-box follow-up that must rebuild every key exactly once.",
+    "Exhaustive enumeration of schedules (preemption-bounded) of concurrent Gets plus caller behaviour after return (overwrite or reuse of the key buffer at every scheduling position relative to the background build, context cancellation), builders that succeed, fail or panic (recovered by the caller), and one injected backend fault at every call position; termination through the scheduler's deadlock detection, lock accounting at quiescence, a Get at quiescence that must observe the last completed build, and a black-box follow-up that must rebuild every key exactly once.",
     "Trusted: verif-tagged key-lock accessor; follow-up phase as the black-box meaning of 'a later Get is able to build again'. Same granularity and bounds as C01.",
     "stateless model checking of the implementation with fault enumeration (preemption- and deviation-bounded DFS, deadlock detection)", "DESIGN.md §C04")
 
 chk("C05",
-    "(a,c) exhaustive schedule enumeration of SyncRead bursts (2-3 threads) on the real code with a builder-invocation counter as oracle; (b) exhaustive enumeration of all operation sequences up to the bound over Get(ok)/Get(fail)/clock advances around the failure window, for three FailedUpdateTTL settings and the jitter answer at both extremes, under the virtual clock.",
+    "(a,c) exhaustive schedule enumeration of SyncRead bursts (2-3 threads) on the real code with a builder-invocation counter as oracle; (b) exhaustive enumeration of all operation sequences up to the bound over Get(ok)/Get(fail) (plain, under a cancelled caller context, under a caller TTL)/clock advances around the failure window/ExpireAll, for three FailedUpdateTTL settings and the jitter answer at both extremes, under the virtual clock.",
     "Trusted: virtual clock/rand seams. Bursts happen at one virtual instant; bounds as C01.",
     "stateless model checking of the implementation (schedules) + exhaustive bounded operation-sequence enumeration", "DESIGN.md §C05")
 chk("C06",
-    "Complete enumeration of the caller-TTL x builder-WithTTL-behaviour x path x cancellation grid on the three front-ends, each case run under the scheduler with all schedules; a recording backend wrapper and the builder observe the TTL of every store and the build context.",
+    "Complete enumeration of the caller-TTL x builder-WithTTL-behaviour x path (cold, sync/background update incl. unchanged value under ObserveMutability, waiter, SkipRead on every entry state with and without a cached failure) x cancellation/deadline grid on the three front-ends, each case run under the scheduler with all schedules; a recording backend wrapper and the builder observe the TTL of every store and the build context.",
     "Trusted: recording wrapper; 'smallest non-zero' read over signed durations. TTL values outside the grid are not explored.",
     "exhaustive enumeration of a finite input/configuration table + stateless model checking of each case", "DESIGN.md §C06")
 
 chk("C15",
-    "(seq) complete enumeration of key->label incidence structures x label argument lists (ordered, duplicates included) x deleter sets, with a Delete failure injected at every call position of the fault-free run followed by a retry; (conc) exhaustive schedule enumeration (preemption-bounded; thorough: unbounded, HB cached) of AddLabels/AddCache/InvalidateByLabels threads on a shared index with a final-sweep oracle.",
+    "(seq) complete enumeration of key->label incidence structures x label argument lists (ordered, duplicates included) x deleter sets x registration style (one call, repeated, one label per call, cumulative) incl. two keys of equal 64-bit hash, with a Delete failure injected at every call position of the fault-free run followed by a retry, and a second write/label/invalidate round on the same index; (conc) exhaustive schedule enumeration (preemption-bounded; thorough: unbounded, HB cached) of AddLabels/AddCache/InvalidateByLabels threads on a shared index with a final-sweep oracle.",
     "Trusted: harness deleter wrappers; Go map iteration order is owned through the vinst map-range rewrite (sorted cursor). Unsynchronised memory access is left to C16.",
     "exhaustive input and fault-position enumeration + stateless model checking of the implementation", "DESIGN.md §C15")
 chk("C17",
-    "(seq) explicit-state BFS over Invalidate/clock-advance sequences against the acceptance model; (conc) exhaustive schedule enumeration of 2-3 Invalidate callers plus a clock thread, with callbacks that contain a scheduling point so that overlap would be observable.",
+    "(seq) explicit-state BFS over Invalidate (also with a panicking callback recovered by the caller) / clock-advance / Callbacks=nil sequences against the acceptance model, every path under the scheduler (a call that never returns is a detected deadlock); (conc) exhaustive schedule enumeration of 2-3 Invalidate callers plus a clock thread, with callbacks that contain a scheduling point so that overlap would be observable.",
     "Trusted: virtual clock; attribution of callbacks to calls through a context value.",
     "explicit-state BFS + stateless model checking of the implementation (preemption-bounded / HB-cached DFS)", "DESIGN.md §C17")
 
 chk("C18",
-    "(backends) explicit-state BFS over C07's operation alphabet with a recording StatsTracker, comparing metric totals with reference-model-derived counts after every transition; (Failover) the complete lone-Get decision table and concurrent 2-3 thread workloads on two keys (incl. SkipRead) under the scheduler, comparing totals at quiescence with the harness's own operation log in every explored schedule.",
+    "(backends) explicit-state BFS over C07's operation alphabet with a recording StatsTracker, comparing metric totals with reference-model-derived counts after every transition; (Failover) the complete lone-Get decision table, the same table with a backend call failing at every position, and concurrent 2-3 thread workloads on two keys (incl. SkipRead) under the scheduler, comparing totals at quiescence with the harness's own operation log in every explored schedule.",
     "Trusted: harness operation log (pass-through backend wrapper, builder counters). Reads of Failover's internal failure cache are not observable and not accounted.",
     "explicit-state BFS + stateless model checking of the implementation (preemption-bounded DFS)", "DESIGN.md §C18")
 
@@ -68,16 +68,16 @@ chk("C09",
     "constructed adversarial inputs + explicit-state BFS + stateless model checking of the implementation", "DESIGN.md §C09")
 
 chk("C08",
-    "Exhaustive enumeration of schedules (preemption bound 2 with happens-before caching; thorough: unbounded) of all small client programs (2-3 threads x 1-2 Write/Read/Delete operations on two same-shard keys) plus one batch thread (ExpireAll, DeleteAll, delete-expired, eviction under three strategies, Walk) on the three real backends; every per-key invocation/response history is checked with porcupine v1.3.0 against a nondeterministic register-with-expiry model in which a batch call is one pseudo-operation per key.",
+    "Exhaustive enumeration of schedules (preemption bound 2 with happens-before caching; thorough: unbounded) of all small client programs (2-3 threads x 1-2 Write/Read/Delete operations on two same-shard keys, and once more on two keys with the SAME xxhash64 against a slot model) plus one batch thread (ExpireAll, DeleteAll, delete-expired, eviction under three strategies, Walk) on the three real backends (finite and Unlimited TimeToLive); every per-key invocation/response history is checked with porcupine v1.3.0 against a nondeterministic register-with-expiry model in which a batch call is one pseudo-operation per key.",
     "Trusted: porcupine; the register model. Abstraction: the instrumented build has 4 instead of 128 shards (vinst -const shards=4) so that batch operations are short enough to interleave exhaustively. Exhaustive below 3(+1) threads x 2 operations only.",
     "stateless model checking of the implementation (DFS over schedules, HB caching) + linearizability checking of every explored history", "DESIGN.md §C08")
 
 chk("C14",
-    "Complete enumeration of cache-name assignments x entry sets x backend pairings x request perturbations through an in-process RoundTripper, a body cut / body read failure injected at EVERY byte offset of the exported stream, and every type-registration sequence up to length 4 evaluated in a fresh process each; importer contents are compared with the exporter's.",
+    "Complete enumeration of cache-name assignments (names that need URL escaping, the empty name) x entry sets x backend pairings x request perturbations through an in-process RoundTripper, a body cut / body read failure injected at EVERY byte offset of the exported stream, and every type-registration sequence up to length 4 evaluated in a fresh process each; importer contents are compared with the exporter's.",
     "Trusted: net/http's Handler/Request plumbing, encoding/gob. Entry sets beyond two entries per cache and type pools beyond the four listed types are not explored.",
     "exhaustive input and fault-position enumeration on the implementation (fresh-process enumeration for the hash)", "DESIGN.md §C14")
 
 chk("C16",
-    "For every small client program (every unordered pair of 13 backend operations x 3 backends x 3 strategies, every pair of InvalidationIndex operations, Failover/FailoverOf Get pairs incl. background builds, Invalidate pairs; thorough: triples) ALL interleavings of the program's synchronisation operations within the bound are executed in a -race build under the controlled scheduler, whose hand-offs are invisible to the detector (plain words touched only from //go:norace code); Go's race detector decides each execution.",
+    "For every small client program (every unordered pair of 13 backend operations x 3 backends x 3 strategies, every pair of InvalidationIndex operations, Failover/FailoverOf Get pairs incl. background builds and a shared TTL-carrying caller context, Invalidate pairs; finite and Unlimited TimeToLive; thorough: triples) ALL interleavings of the program's synchronisation operations within the bound are executed in a -race build under the controlled scheduler, whose hand-offs are invisible to the detector (plain words touched only from //go:norace code); Go's race detector decides each execution.",
     "Trusted: Go race detector (happens-before, Go memory model) with report suppression disabled; invisibility of the hand-off (probed, DESIGN §2.6). Abstraction: 4 shards. Larger client programs are not explored. Known findings are matched on the exact unordered pair of racing bool64/cache functions.",
     "stateless model checking of the implementation (DFS over schedules, HB caching) with the race detector as per-execution oracle", "DESIGN.md §C16")
